@@ -158,6 +158,16 @@ Theorem C17_cancel :
 Proof. exact round_trip_cancel. Qed.
 Print Assumptions C17_cancel.
 
+(* the same through the auth client, over all of its sends *)
+Theorem C17_cancel_auth :
+  forall warm p bd sc tc dl,
+    0 <= tc ->
+    let a := auth_do warm p (Some (tc, dl)) bd sc in
+    Forall (fun x => fst x <= tc) (attempts (a_first a) ++ attempts (a_second a) ++ attempts (a_third a)) /\
+    a_time a <= tc.
+Proof. exact auth_do_cancel. Qed.
+Print Assumptions C17_cancel_auth.
+
 (* --- totality of the backoff (F7) ------------------------------------------------- *)
 
 (* the source as it is now (guard flag re-read from policy.go): ExponentialBackoff
